@@ -162,10 +162,12 @@ theorem guardSession_some {mc : FilterOracle} {t : Table} {sel : List Part} {cfg
     simp only [Option.some.injEq, Prod.mk.injEq] at h
     obtain ⟨rfl, rfl⟩ := h
     refine ⟨rfl, rfl, rfl, ?_⟩
-    simp at hc
-    obtain ⟨⟨⟨_, _⟩, hg, _⟩, _⟩ := hc
-    exact hg
-
+    simp only [Bool.or_eq_true, not_or, Bool.not_eq_true, Bool.not_eq_false'] at hc
+    have hint := hc.1.2
+    unfold coverageHasInterior at hint
+    split at hint
+    · cases hint
+    · rename_i hg; omega
 
 theorem mem_rows_shape {ps : List Part} {s : Span} : s ∈ rows (shape ps) ↔ ∃ p ∈ ps, s ∈ p.spans := by
   simp only [rows, shape, List.flatMap_map, List.mem_flatMap]
